@@ -3,6 +3,7 @@
   settings are accepted only inside their valid ranges.
 -/
 import SuplaVerif.Model.Form
+import SuplaVerif.Model.Cred
 namespace SuplaVerif.C14
 open SuplaVerif
 
@@ -91,5 +92,94 @@ example : fieldValue 4 [97, 98, 99, 100, 101, 102, 38, 120] = [97, 98, 99] := by
 example : fieldValue 32 [97, 37, 50, 49, 43, 98, 38, 120, 61] = [97, 33, 32, 98] := by
   simp [fieldValue, decVal, stored, cstr, plain, hexByte, hexDigit]
 example : applyPort 1883 [55, 48, 48, 48, 48] = 1883 ∧ applyPort 1883 [56, 56, 56, 51] = 8883 := by decide
+
+/-! ### keeping a stored long password when the form leaves the password empty
+     (`Bytes.cstr` is the C-string view of Base/Bytes; the `cstr` above is Model/Form's) -/
+
+/-- a byte string whose C-string view is shorter than the string has a terminator right behind that view -/
+theorem bcstr_split : ∀ (b : Bytes), (Bytes.cstr b).length < b.length →
+    b = Bytes.cstr b ++ 0 :: b.drop ((Bytes.cstr b).length + 1) ∧ (∀ x ∈ Bytes.cstr b, x ≠ 0) := by
+  intro b
+  induction b with
+  | nil => intro h; simp [Bytes.cstr] at h
+  | cons x xs ih =>
+    intro h
+    unfold Bytes.cstr at h ⊢
+    by_cases hx : x = 0
+    · simp [hx]
+    · simp only [hx, if_false, List.length_cons] at h ⊢
+      have := ih (by omega)
+      refine ⟨?_, ?_⟩
+      · simp only [List.cons_append, List.drop_succ_cons]
+        rw [← this.1]
+      · intro y hy
+        rcases List.mem_cons.mp hy with h1 | h1
+        · rw [h1]; exact hx
+        · exact this.2 y h1
+
+theorem bcstr_prefix_zero (p r : Bytes) (h : ∀ x ∈ p, x ≠ 0) : Bytes.cstr (p ++ 0 :: r) = p := by
+  induction p with
+  | nil => simp [Bytes.cstr]
+  | cons x xs ih =>
+    have hx : x ≠ 0 := h x (by simp)
+    simp only [List.cons_append, Bytes.cstr, hx, if_false]
+    rw [ih (fun y hy => h y (by simp [hy]))]
+
+theorem take_len_succ (c r : Bytes) (x : UInt8) : (c ++ x :: r).take (c.length + 1) = c ++ [x] := by
+  induction c with
+  | nil => simp
+  | cons y ys ih => simp [ih]
+
+/-- **C14 (the e-mail survives the kept password)** whatever password and e-mail were stored and whatever e-mail the form
+    brought: keeping the stored long password leaves the new e-mail exactly as submitted - its characters and its
+    terminator are not touched, the overflow part is placed behind the terminator (this is what keeps it off the page, C15) -
+    and the Email field keeps its size -/
+theorem c14_keep_password_keeps_mail (L E : Nat) (oldPwd oldMail newMail : Bytes) (hlen : newMail.length = E)
+    (hterm : strnlen newMail E < E) :
+    Bytes.cstr (keepLongPassword L E oldPwd oldMail newMail).2 = Bytes.cstr newMail ∧
+    (keepLongPassword L E oldPwd oldMail newMail).2.length = E := by
+  have htake : newMail.take E = newMail := by rw [← hlen]; exact List.take_length
+  have hnm : strnlen newMail E = (Bytes.cstr newMail).length := by unfold strnlen; rw [htake]
+  have hn : (Bytes.cstr newMail).length < newMail.length := by rw [← hnm, hlen]; exact hterm
+  obtain ⟨hsplit, hnn⟩ := bcstr_split newMail hn
+  unfold keepLongPassword
+  by_cases h1 : strnlen oldPwd L = L
+  · rw [if_pos h1]
+    by_cases h2 : strnlen oldMail E < E ∧ strnlen newMail E < E
+    · rw [if_pos h2]
+      simp only
+      by_cases h3 : strnlen (oldMail.drop (strnlen oldMail E + 1)) (E - strnlen oldMail E - 1) < E - strnlen oldMail E - 1
+      · rw [if_pos h3]
+        simp only
+        generalize (List.take _ (List.drop (strnlen oldMail E + 1) oldMail)) = d
+        rw [hnm]
+        generalize hc : Bytes.cstr newMail = c at hsplit hnn hn hnm
+        have hpoke : poke newMail (c.length + 1) d = c ++ 0 :: (d ++ newMail.drop (c.length + 1 + d.length)) := by
+          unfold poke
+          have e1 : newMail.take (c.length + 1) = c ++ [0] := by
+            conv => lhs; rw [hsplit]
+            exact take_len_succ c _ 0
+          rw [e1]
+          simp [List.append_assoc]
+        rw [hpoke]
+        have hcE : c.length + 1 ≤ E := by omega
+        have htk : (c ++ 0 :: (d ++ newMail.drop (c.length + 1 + d.length))).take E =
+            c ++ 0 :: (d ++ newMail.drop (c.length + 1 + d.length)).take (E - c.length - 1) := by
+          rw [List.take_append]
+          have : E - c.length = (E - c.length - 1) + 1 := by omega
+          rw [List.take_of_length_le (Nat.le_of_lt (by omega : c.length < E)), this, List.take_succ_cons]
+          simp
+        rw [htk]
+        refine ⟨bcstr_prefix_zero _ _ hnn, ?_⟩
+        simp only [List.length_append, List.length_cons, List.length_take, List.length_drop, hlen]
+        omega
+      · rw [if_neg h3]; exact ⟨rfl, hlen⟩
+    · rw [if_neg h2]; exact ⟨rfl, hlen⟩
+  · rw [if_neg h1]; exact ⟨rfl, hlen⟩
+
+/-- non-vacuity: Password field of 4, Email field of 12: the stored password "PPPP" + overflow "QQ" behind "ab", new e-mail
+    "wxyz": the e-mail stays "wxyz", the overflow part follows its terminator -/
+example : keepLongPassword 4 12 [80, 80, 80, 80] [97, 98, 0, 81, 81, 0, 0, 0, 0, 0, 0, 0] [119, 120, 121, 122, 0, 81, 0, 0, 0, 0, 0, 0] =
+    ([80, 80, 80, 80], [119, 120, 121, 122, 0, 81, 81, 0, 0, 0, 0, 0]) := by decide
 
 end SuplaVerif.C14
